@@ -225,8 +225,8 @@ func mixCase(rng *rand.Rand, raw []byte) []byte {
 }
 
 type loadStats struct {
-	q, ok, lost, badans, poison atomic.Int64
-	firstBad                    atomic.Value
+	q, ok, lost, badans, poison, stray atomic.Int64
+	firstBad                           atomic.Value
 }
 
 // checkResponse: the response must answer the question asked with the keyed answer
@@ -266,6 +266,40 @@ func checkResponse(st *loadStats, l string, q, resp []byte) {
 		return
 	}
 	st.ok.Add(1)
+}
+
+// one query over UDP from a fresh socket. The kernel may hand this socket the ephemeral port of a client that hung
+// up a moment ago; the proxy's (correct) late response to THAT client then arrives here. Like any DNS client, skip
+// datagrams whose id is not ours — but still require them to be self-consistent (keyed answer of their own question).
+func c20UDPQuery(st *loadStats, port int, wire []byte, timeout time.Duration) ([][]byte, string) {
+	c, err := net.DialUDP("udp", nil, &net.UDPAddr{IP: net.IPv4(127, 0, 0, 1), Port: port})
+	if err != nil {
+		return nil, "dial-error"
+	}
+	defer c.Close()
+	c.Write(wire)
+	buf := make([]byte, 65536)
+	c.SetReadDeadline(time.Now().Add(timeout))
+	for {
+		n, err := c.Read(buf)
+		if err != nil {
+			return nil, "no-response"
+		}
+		resp := append([]byte(nil), buf[:n]...)
+		if n >= 2 && (resp[0] != wire[0] || resp[1] != wire[1]) && !hasPoison(resp) {
+			if m, err := dnsmsg.UnpackMsg(resp); err == nil && len(m.Questions) == 1 {
+				rq := hx.BuildQuery(binary.BigEndian.Uint16(resp), m.Questions[0].Name, uint16(m.Questions[0].Type), uint16(m.Questions[0].Class), true)
+				dnsmsg.ReleaseMsg(m)
+				st.stray.Add(1)
+				var tmp loadStats
+				checkResponse(&tmp, "udp", rq, resp)
+				if tmp.badans.Load() == 0 && tmp.poison.Load() == 0 {
+					continue // somebody else's intact response
+				}
+			}
+		}
+		return [][]byte{resp}, "ok"
+	}
 }
 
 // one query over a stream listener; a frame whose length octets are poison is reported as such at once
@@ -406,6 +440,8 @@ func runOwnLoad(id string, parts []string) string {
 							st.firstBad.CompareAndSwap(nil, l+" poison frame header (0xdbdb) for q="+hx.Hex(q))
 							continue
 						}
+					} else if l == "udp" {
+						resps, status = c20UDPQuery(&st, env.Ports[l], q, 8*time.Second)
 					} else {
 						resps, status = env.Query(l, q, "-", 8*time.Second, 0)
 					}
@@ -506,8 +542,8 @@ func runOwnLoad(id string, parts []string) string {
 			fmt.Fprintln(os.Stderr, "C20 ownload first failure:", fb.(string))
 		}
 		gets, rels, _ := pool.VerifStats()
-		return fmt.Sprintf("viol=%d q=%d ok=%d lost=%d badans=%d poison=%d upq=%d upoison=%d uforeign=%d tx=%d tok=%d tbad=%d ev=%s gets=%d rels=%d",
+		return fmt.Sprintf("viol=%d q=%d ok=%d lost=%d badans=%d poison=%d upq=%d upoison=%d uforeign=%d tx=%d tok=%d tbad=%d ev=%s stray=%d gets=%d rels=%d",
 			viol, st.q.Load(), st.ok.Load(), st.lost.Load(), st.badans.Load(), st.poison.Load(), upq, upoison, uforeign,
-			tx.Load(), tok.Load(), tbad.Load(), ev, gets, rels)
+			tx.Load(), tok.Load(), tbad.Load(), ev, st.stray.Load(), gets, rels)
 	})
 }
